@@ -66,6 +66,26 @@ Record DomainSpec : Prop := {
 Definition RefinesSpec : Prop :=
   forall x y, wfs x -> wfs y -> p_refines x y = inl true -> forall b, den x b -> den y b.
 
+(* ---- optional: what C15 ("composition keeps the guarantees it can express")
+   needs on top of DomainSpec.  Term.__eq__ is reflexive on well-formed terms and
+   only identifies terms over the same variables; relaxation really eliminates,
+   and does nothing (semantically, in context) when there is nothing to eliminate *)
+Definition mentions_none (vs : list var) (s : list term) : Prop :=
+  forall t, In t s -> forall v, In v (term_vars t) -> ~ In v vs.
+Record KeepSpec : Prop := {
+  teqb_refl : forall t, wf t -> term_eqb t t = true;
+  teqb_vars : forall t u, wf t -> wf u -> term_eqb t u = true ->
+      forall v, In v (term_vars t) <-> In v (term_vars u);
+  (* the result mentions no eliminated variable *)
+  relax_elim : forall s ctx vs sp od r st, wfs s -> wfs ctx -> vs_ok vs ->
+      p_elim_relax s ctx vs sp od = inl (r, st) -> mentions_none vs r;
+  (* nothing to eliminate: an equivalence in context *)
+  relax_noelim : forall s ctx vs sp od r st, wfs s -> wfs ctx -> vs_ok vs ->
+      mentions_none vs s ->
+      p_elim_relax s ctx vs sp od = inl (r, st) ->
+      forall b, den ctx b -> (den r b <-> den s b)
+}.
+
 (* a component honours its contract at b: it delivers its guarantees whenever
    its assumptions hold *)
 Definition honours (c : contract) (b : B) : Prop := den (c_a c) b -> den (c_g c) b.
